@@ -201,7 +201,7 @@ fn exh(ctx: &mut Ctx, sub: &str, start: u64, count: u64) {
 
 fn worker(ctx: &mut Ctx) {
     let (cases, ndyn) = match ctx.cfg.tier {
-        Tier::Quick => (15_000u64, 2u64),
+        Tier::Quick => (60_000u64, 3u64),
         Tier::Thorough => (400_000u64, 8u64),
     };
     let total = (1 + ndyn) * 32768;
